@@ -4,7 +4,7 @@
    state what the FIFO and LRU models guarantee in the property's own terms, and the membership
    laws that let the generic theorems (C05, C13, C18) apply to the containers. *)
 From Coq Require Import List NArith Bool Permutation Sorted.
-From FV Require Import Mem.Shard Mem.Algo Mem.Concrete Mem.AlgoThms.
+From FV Require Import Mem.Shard Mem.Algo Mem.Concrete Mem.AlgoThms Mem.SieveThms.
 Import ListNotations.
 Open Scope N_scope.
 
@@ -89,7 +89,29 @@ Theorem c14_pop_members_lfu : forall bucket s e s',
 Proof. exact lfu_pop_members. Qed.
 Print Assumptions c14_pop_members_lfu.
 
-(* closed examples of the published rules on the other three models, evaluated by the kernel *)
+(* SIEVE, the published rule, for every queue and every hand position: the victim is the first record in queue order
+   from the hand, wrapping at the tail, whose visited bit is clear; the bits of the records the hand passed are cleared
+   and nothing else changes; with every record visited the hand goes once around and takes the record it started from *)
+Theorem c14_sieve_rule : forall q p, (p < length q)%nat ->
+  let fuel := (2 * length q + 1)%nat in
+  (forall j, (p <= j < length q)%nat -> vis q j = Some false -> (forall i, (p <= i < j)%nat -> vis q i = Some true) ->
+     sieve_scan fuel p q = Some (j, clear_from p (j - p) q)) /\
+  (forall j, (j < p)%nat -> vis q j = Some false -> (forall i, (i < j)%nat -> vis q i = Some true) ->
+     (forall i, (p <= i < length q)%nat -> vis q i = Some true) ->
+     sieve_scan fuel p q = Some (j, clear_from 0 j (clear_from p (length q - p) q))) /\
+  ((forall i, (i < length q)%nat -> vis q i = Some true) ->
+     sieve_scan fuel p q = Some (p, clear_from 0 (length q) q)).
+Proof. exact sieve_scan_spec. Qed.
+Print Assumptions c14_sieve_rule.
+
+Theorem c14_pop_members_sieve : forall s e s',
+  sieve_pop s = Some (e, s') ->
+  exists p q', nth_error q' p = Some (e, false) /\ map fst q' = map fst (v_q s) /\
+               map fst (v_q s') = remove_nth p (map fst (v_q s)).
+Proof. exact sieve_pop_members. Qed.
+Print Assumptions c14_pop_members_sieve.
+
+(* closed examples of the published rules on the models, evaluated by the kernel *)
 Example c14_sieve_hand :
   (* queue a b c, a and b visited: the hand skips and clears them, evicts c, wraps to the front *)
   let q := [(mkEnt 0%nat 1 0, true); (mkEnt 1%nat 1 1, true); (mkEnt 2%nat 1 2, false)] in
